@@ -401,3 +401,26 @@ PROPS["C12"] = {
     "level_text": "Bounded model checking of the real SafeKV under a controlled scheduler: every schedule of lock operations within the preemption bound; data races are decided by a vector-clock happens-before check on every plain access (including reads made outside the lock), atomicity by a Wing-Gong linearizability search against a plain map with snapshot results checked at a single linearization point.",
     "level_note": "Trusted: go/ssa, gosym scheduler/race detector. Races are confirmed natively with -race, atomicity violations by replaying the recorded lock order through the sync shim.",
 }
+
+# ------------------------------------------------------------------------------------------- C19
+c19 = "vh/c19."
+PROPS["C19"] = {
+    "patterns": ["./c19"],
+    "level": "model_checking",
+    "concurrent": True,
+    "quick": [
+        J(c19 + "Limit", tasks=2, maxlimit=2, covers=["default limit", "task panicked"], cfg={"Preempt": 1, "Witnesses": 0, "MaxPaths": 80000000}),
+        J(c19 + "Limit", tasks=3, maxlimit=1, covers=["default limit", "task panicked"], cfg={"Preempt": 1, "Witnesses": 0, "MaxPaths": 80000000}),
+    ],
+    "thorough": [
+        J(c19 + "Limit", tasks=2, maxlimit=1, covers=["default limit", "task panicked"], cfg={"Preempt": 2, "Witnesses": 0, "MaxPaths": 80000000}),
+        J(c19 + "Limit", tasks=4, maxlimit=3, covers=["default limit", "task panicked"], cfg={"Preempt": 1, "Witnesses": 0, "MaxPaths": 80000000}),
+        J(c19 + "Limit", tasks=3, maxlimit=2, covers=["default limit", "task panicked"], cfg={"Preempt": 2, "Witnesses": 0, "MaxPaths": 80000000}),
+    ],
+    "bounds": {"quick": "limit symbolic: every value below 1 (default 3) in one path, 1..2 concretised; 2 submitted functions (3 for limits <= 1), each panicking or not, with and without a configured handler; a scheduling point inside every function; afterwards n gate-synchronised functions must be inside together (a leaked slot deadlocks); schedules of the submitting goroutine and the workers at channel/WaitGroup/atomic operations with 1 preemption",
+               "thorough": "2 functions with 2 preemptions; 4 functions, limits up to 3; 3 functions with 2 preemptions"},
+    "outside": ["Wait(timeout) (timer)", "a handler that itself panics", "more functions / preemptions"],
+    "assumptions": ["channels, WaitGroup and goroutine start follow the Go memory model as implemented by the engine's scheduler", "fmt/runtime stack formatting in the nil-handler path is stubbed (empty trace)"],
+    "level_text": "Bounded model checking of the real Limiter/Recover code under a controlled scheduler (goroutines created inside the library, buffered-channel semaphore, WaitGroup, nested defer/recover): every schedule within the preemption bound, for every limit and panic pattern; concurrency bound, exactly-once execution, Wait semantics, handler delivery and slot release (as absence of deadlock) are checked on each.",
+    "level_note": "Trusted: go/ssa, gosym scheduler. Violations are deterministic consequences of the panic pattern (slot leak -> deadlock, lost task) and are confirmed by running the harness natively under the real scheduler.",
+}
